@@ -40,17 +40,16 @@ func (t *Trace) AddContent(b []byte) string {
 	return tok
 }
 
-// Step executes one event, projects the result and appends a step line and (if anything changed or
-// the event is a touch) a new state line. Returns the step line.
-func (t *Trace) Step(ev M) M {
-	step := M{"kind": "step", "trace": t.Label}
+// execStep executes one event in r's repository starting from state pre (recorded at line preLine of lines),
+// projects the result and appends the post state line (if anything changed or the event is a touch) and the step line.
+func execStep(lines *[]M, r *Runner, obs ObsSpec, label string, preLine int, pre M, ev M, contents map[string][]byte) (int, M, M) {
+	step := M{"kind": "step", "trace": label}
 	for k, v := range ev {
 		step[k] = v
 	}
-	pre := t.Cur
-	step["prel"] = t.CurLine
-	step["tz"] = t.R.TZ
-	isEnv, err := t.R.ApplyEnv(ev, t.Contents)
+	step["prel"] = preLine
+	step["tz"] = r.TZ
+	isEnv, err := r.ApplyEnv(ev, contents)
 	if isEnv {
 		step["cls"] = "env"
 		if err != nil {
@@ -64,12 +63,12 @@ func (t *Trace) Step(ev M) M {
 		step["err"] = ""
 	} else {
 		argv, _ := Argv(ev)
-		x := t.R.RunGoit(argv...)
+		x := r.RunGoit(argv...)
 		step["cls"] = "cmd"
 		step["res"] = x.Res
 		step["exit"] = x.Exit
 		step["t0"], step["t1"] = int(x.T0), int(x.T1)
-		step["out"] = t.R.catP(x.Stdout)
+		step["out"] = r.catP(x.Stdout)
 		e := x.Stderr
 		if len(e) > 300 {
 			e = e[:300]
@@ -81,15 +80,25 @@ func (t *Trace) Step(ev M) M {
 		}
 		step["argv"] = av
 	}
-	st := t.R.T.Project(t.R.Root, t.R.Home)
-	if st["dg"] == pre["dg"] && ev["ev"] != "touch" && ev["ev"] != "settz" {
-		step["postl"] = t.CurLine
-	} else {
-		t.pushState(st, pre)
-		step["postl"] = t.CurLine
+	st := r.T.Project(r.Root, r.Home)
+	postLine := preLine
+	post := pre
+	if !(st["dg"] == pre["dg"] && ev["ev"] != "touch" && ev["ev"] != "settz") {
+		o := r.Observe(obs, st, pre)
+		*lines = append(*lines, M{"kind": "state", "st": st, "obs": o, "trace": label})
+		postLine = len(*lines)
+		post = st
 	}
-	// step line goes after its post state so that every reference points backwards
-	t.Lines = append(t.Lines, step)
+	step["postl"] = postLine
+	// the step line goes after its post state so that every reference points backwards
+	*lines = append(*lines, step)
+	return postLine, post, step
+}
+
+// Step executes one event and appends it to the trace. Returns the step line.
+func (t *Trace) Step(ev M) M {
+	postLine, post, step := execStep(&t.Lines, t.R, t.Obs, t.Label, t.CurLine, t.Cur, ev, t.Contents)
+	t.Cur, t.CurLine = post, postLine
 	t.Events = append(t.Events, ev)
 	return step
 }
